@@ -41,6 +41,11 @@ def parse_line(line):
     return ws[0], parse_ints(ws[1:])
 
 
+def fq(xs):
+    """rationals as text"""
+    return "[" + ", ".join(str(x) for x in xs) + "]"
+
+
 class Bad(Exception):
     """the C output contradicts the specification"""
 
@@ -337,9 +342,9 @@ def cmp_lat(out, want, what):
     d, b = out
     need(want is not None, "oracle: operand not of full rank (generator bug)")
     need(d != 0, "zero denominator in result")
-    need(is_hnf_fullrank(b), "%s: returned basis is not in Hermite normal form; expected |denom| basis = %s" % (what, fmt_lat(want)))
+    need(is_hnf_fullrank(b), "%s: returned basis is not in Hermite normal form; expected |denom| basis (hex) = %s" % (what, fmt_lat(want)))
     need(gcd(abs(d), content(b)) == 1, "%s: denominator not reduced; expected %s" % (what, fmt_lat(want)))
-    need(abs(d) == want[0] and b == want[1], "%s: wrong lattice; expected |denom| basis = %s" % (what, fmt_lat(want)))
+    need(abs(d) == want[0] and b == want[1], "%s: wrong lattice; expected |denom| basis (hex) = %s" % (what, fmt_lat(want)))
 
 
 # ----------------------------------------------------------------------------------------------- verdicts
@@ -354,7 +359,7 @@ def _verdict(op, xs, out):
     if op == "q.xgcd":
         a, b = xs
         g, s, t = out
-        need(g == gcd(a, b), "gcd wrong: expected %s" % hx(gcd(a, b)))
+        need(g == gcd(a, b), "gcd wrong: expected 0x%s" % hx(gcd(a, b)))
         need(s * a + t * b == g, "Bezout identity s*a + t*b = g fails")
     elif op == "q.rdiv":
         a, b = xs
@@ -368,14 +373,14 @@ def _verdict(op, xs, out):
         R, _ = take_elem(out, 0)
         va, vb = qval(A), qval(B)
         want = [x + y if op == "q.add" else x - y for x, y in zip(va, vb)]
-        need(qval(R) == want, "value differs; expected coordinates %s" % want)
+        need(qval(R) == want, "value differs; expected coordinates %s" % fq(want))
     elif op == "q.mul":
         p = xs[0]
         A, k = take_elem(xs, 1)
         B, k = take_elem(xs, k)
         R, _ = take_elem(out, 0)
         want = qmul(p, qval(A), qval(B))
-        need(qval(R) == want, "product differs; expected coordinates %s" % want)
+        need(qval(R) == want, "product differs; expected coordinates %s" % fq(want))
     elif op == "q.conj":
         A, _ = take_elem(xs, 0)
         R, _ = take_elem(out, 0)
@@ -388,7 +393,7 @@ def _verdict(op, xs, out):
         g = R[0]
         for c in R[1]:
             g = gcd(g, c)
-        need(g == 1, "normalised element not in lowest terms (gcd %s)" % hx(g))
+        need(g == 1, "normalised element not in lowest terms (gcd 0x%s)" % hx(g))
     elif op == "q.eqden":
         A, k = take_elem(xs, 0)
         B, k = take_elem(xs, k)
@@ -417,7 +422,7 @@ def _verdict(op, xs, out):
         for i in range(4):
             e = [Fr(1 if t == i else 0) for t in range(4)]
             want = qmul(p, e, num)
-            need([Fr(R[r][i]) for r in range(4)] == want, "column %d is not e_%d * a; expected %s" % (i, i, want))
+            need([Fr(R[r][i]) for r in range(4)] == want, "column %d is not e_%d * a; expected %s" % (i, i, fq(want)))
     elif op == "q.o0basis":
         A, _ = take_elem(xs, 0)
         if A[0] == 0:
@@ -425,7 +430,7 @@ def _verdict(op, xs, out):
         v = o0_domain(A)
         if v is None:
             return "skip"
-        need([Fr(t) for t in out] == v, "coordinates in the O0 basis differ; expected %s" % v)
+        need([Fr(t) for t in out] == v, "coordinates in the O0 basis differ; expected %s" % fq(v))
     elif op == "m.mul":
         A, k = take_mat(xs, 0)
         B, k = take_mat(xs, k)
@@ -437,8 +442,8 @@ def _verdict(op, xs, out):
         if d == 0:
             need(out == [0], "singular matrix: expected return 0 / det 0")
         else:
-            need(len(out) == 17, "non-singular matrix reported singular; det = %s" % hx(d))
-            need(out[0] == d, "determinant differs; expected %s" % hx(d))
+            need(len(out) == 17, "non-singular matrix reported singular; det = 0x%s" % hx(d))
+            need(out[0] == d, "determinant differs; expected 0x%s" % hx(d))
             R, _ = take_mat(out, 1)
             need(matmul(A, R) == [[d if i == j else 0 for j in range(4)] for i in range(4)], "mat * inv != det * Id")
     elif op == "m.eval":
@@ -521,7 +526,7 @@ def _verdict(op, xs, out):
             # basis outside the documented precondition: only soundness is required (never a wrong "yes")
             need(out[0] == 0 or inside, "answered 'member' for an element outside the lattice")
         if out[0] == 1:
-            need([Fr(v) for v in out[1:]] == c, "coordinates in the lattice basis differ; expected %s" % c)
+            need([Fr(v) for v in out[1:]] == c, "coordinates in the lattice basis differ; expected %s" % fq(c))
     elif op == "l.index":
         S, k = take_lat(xs, 0)
         O, k = take_lat(xs, k)
@@ -534,7 +539,7 @@ def _verdict(op, xs, out):
             return "skip"            # not nested: outside the precondition
         idx = covol(cs) / covol(co)
         assert idx.denominator == 1, "oracle: index of nested lattices not integral"
-        need(out == [idx.numerator], "index differs; expected %s" % hx(idx.numerator))
+        need(out == [idx.numerator], "index differs; expected 0x%s" % hx(idx.numerator))
     else:
         return "skip"
     return "ok"
